@@ -792,3 +792,227 @@ Qed.
 Lemma ports_irrelevant s h f :
   map erase (trace s h) = map erase (trace s (map (with_port f) h)).
 Proof. unfold trace. apply run_ports. Qed.
+
+(* ------------------------------------------------------------------ *)
+(* concurrent Allow calls: every schedule of the atomic steps *)
+
+Lemma upd_length : forall h i b, length (upd h i b) = length h.
+Proof. induction h as [|x r IH]; intros [|i] b; cbn [upd length]; auto. Qed.
+
+Lemma nth_upd_same : forall h i b d, (i < length h)%nat -> nth i (upd h i b) d = b.
+Proof.
+  induction h as [|x r IH]; intros [|i] b d H; cbn [length] in H; try lia; cbn [upd nth]; auto.
+  apply IH. lia.
+Qed.
+
+Lemma nth_upd_other : forall h i j b d, i <> j -> nth j (upd h i b) d = nth j h d.
+Proof.
+  induction h as [|x r IH]; intros [|i] [|j] b d H; cbn [upd nth]; auto; try congruence.
+Qed.
+
+Definition cinv (keys : nat -> key) (cs : cstate) (tmin : Z) : Prop :=
+  (forall k i, mfind (cs_map cs) k = Some i -> (i < length (cs_heap cs))%nat) /\
+  (forall k1 k2 i, mfind (cs_map cs) k1 = Some i -> mfind (cs_map cs) k2 = Some i -> k1 = k2) /\
+  (forall th i, hfind (cs_held cs) th = Some i -> mfind (cs_map cs) (keys th) = Some i) /\
+  (forall i d, (i < length (cs_heap cs))%nat -> wfb (nth i (cs_heap cs) d) /\ b_last (nth i (cs_heap cs) d) <= tmin).
+
+Fixpoint acts_ok (tmin : Z) (acts : list action) : Prop :=
+  match acts with
+  | [] => True
+  | a :: r => tmin <= atime a /\ acts_ok (atime a) r
+  end.
+
+Definition ktakes (k : key) (evs : list (key * Z * bool)) : list (Z * bool) :=
+  flat_map (fun e => if eqb_bytes (fst (fst e)) k then [(snd (fst e), snd e)] else []) evs.
+
+Lemma ktakes_app k x y : ktakes k (x ++ y) = ktakes k x ++ ktakes k y.
+Proof. unfold ktakes. apply flat_map_app. Qed.
+
+Lemma wfb_fresh t : wfb (fresh t).
+Proof. unfold wfb, fresh. cbn [b_credit]. pose proof consts_pos. lia. Qed.
+
+Lemma mfind_cons_other m k k' i : k' <> k -> mfind ((k', i) :: m) k = mfind m k.
+Proof. intros H. cbn [mfind]. apply eqb_bytes_false in H. rewrite H. reflexivity. Qed.
+
+Lemma mfind_cons_same m k i : mfind ((k, i) :: m) k = Some i.
+Proof. cbn [mfind]. rewrite eqb_bytes_refl. reflexivity. Qed.
+
+(* one step keeps the invariant, with the clock advanced to the step's time *)
+Lemma cstep_inv keys cs tmin a :
+  cinv keys cs tmin -> tmin <= atime a -> cinv keys (fst (cstep keys cs a)) (atime a).
+Proof.
+  intros (I1 & I2 & I3 & I4) Ht. unfold cinv.
+  destruct a as [th now|th now]; cbn [atime] in *; cbn [cstep].
+  - destruct (mfind (cs_map cs) (keys th)) as [i|] eqn:E; cbn [fst cs_map cs_heap cs_held].
+    + refine (conj I1 (conj I2 (conj _ _))).
+      * intros th' j. cbn [hfind]. destruct (Nat.eqb th th') eqn:Eth; [|apply I3].
+        apply Nat.eqb_eq in Eth. subst th'. intros H. injection H as <-. exact E.
+      * intros j d H. destruct (I4 j d H) as [Hw Hl]. split; [exact Hw|lia].
+    + refine (conj _ (conj _ (conj _ _))).
+      * intros k i. destruct (eqb_bytes (keys th) k) eqn:Ek.
+        -- apply eqb_bytes_true in Ek. subst k. rewrite mfind_cons_same. intros H. injection H as <-.
+           rewrite app_length. cbn [length]. lia.
+        -- apply eqb_bytes_false in Ek. rewrite mfind_cons_other by exact Ek. intros H.
+           specialize (I1 k i H). rewrite app_length. cbn [length]. lia.
+      * intros k1 k2 i. destruct (eqb_bytes (keys th) k1) eqn:E1, (eqb_bytes (keys th) k2) eqn:E2.
+        -- apply eqb_bytes_true in E1, E2. congruence.
+        -- apply eqb_bytes_true in E1. apply eqb_bytes_false in E2. subst k1.
+           rewrite mfind_cons_same, mfind_cons_other by exact E2. intros H1 H2. injection H1 as <-.
+           specialize (I1 k2 _ H2). lia.
+        -- apply eqb_bytes_false in E1. apply eqb_bytes_true in E2. subst k2.
+           rewrite mfind_cons_same, mfind_cons_other by exact E1. intros H1 H2. injection H2 as <-.
+           specialize (I1 k1 _ H1). lia.
+        -- apply eqb_bytes_false in E1, E2. rewrite !mfind_cons_other by assumption. apply I2.
+      * intros th' j. cbn [hfind]. destruct (Nat.eqb th th') eqn:Eth.
+        -- apply Nat.eqb_eq in Eth. subst th'. intros H. injection H as <-. apply mfind_cons_same.
+        -- intros H. specialize (I3 th' j H).
+           destruct (eqb_bytes (keys th) (keys th')) eqn:Ek.
+           ++ apply eqb_bytes_true in Ek. rewrite Ek in E. congruence.
+           ++ apply eqb_bytes_false in Ek. rewrite mfind_cons_other by exact Ek. exact I3.
+      * intros j d H. rewrite app_length in H. cbn [length] in H.
+        destruct (Nat.eq_dec j (length (cs_heap cs))) as [->|Hne].
+        -- rewrite app_nth2, Nat.sub_diag by lia. cbn [nth]. split; [apply wfb_fresh|cbn [fresh b_last]; lia].
+        -- rewrite app_nth1 by lia. destruct (I4 j d ltac:(lia)) as [Hw Hl]. split; [exact Hw|lia].
+  - destruct (hfind (cs_held cs) th) as [i|] eqn:E; cbn [fst cs_map cs_heap cs_held].
+    + pose proof (I1 _ _ (I3 _ _ E)) as Hi.
+      refine (conj _ (conj I2 (conj I3 _))).
+      * intros k j H. rewrite upd_length. eapply I1; eauto.
+      * intros j d H. rewrite upd_length in H. destruct (Nat.eq_dec i j) as [<-|Hne].
+        -- rewrite nth_upd_same by lia. split; [apply bstep_wf; apply I4; lia|apply bstep_last].
+        -- rewrite nth_upd_other by exact Hne. destruct (I4 j d H) as [Hw Hl]. split; [exact Hw|lia].
+    + refine (conj I1 (conj I2 (conj I3 _))).
+      intros j d H. destruct (I4 j d H) as [Hw Hl]. split; [exact Hw|lia].
+Qed.
+
+Lemma ktakes_single k k' t g : ktakes k [(k', t, g)] = if eqb_bytes k' k then [(t, g)] else [].
+Proof. unfold ktakes. cbn [flat_map fst snd]. apply app_nil_r. Qed.
+
+Lemma cstep_take_eq keys cs th now i :
+  hfind (cs_held cs) th = Some i ->
+  cstep keys cs (ATake th now) =
+  (mkCS (cs_map cs) (upd (cs_heap cs) i (snd (bstep (nth i (cs_heap cs) (fresh now)) now))) (cs_held cs),
+   [(keys th, now, fst (bstep (nth i (cs_heap cs) (fresh now)) now))]).
+Proof. intros H. cbn [cstep]. rewrite H. reflexivity. Qed.
+
+(* the Allow results of one key, under any schedule, are those of ONE bucket fed with the
+   clock readings in schedule order *)
+Lemma cproj keys k : forall acts cs tmin,
+  cinv keys cs tmin -> acts_ok tmin acts ->
+  exists b, wfb b /\
+    (forall i, mfind (cs_map cs) k = Some i -> b = nth i (cs_heap cs) (fresh 0)) /\
+    map snd (ktakes k (crun keys cs acts)) = bseq b (map fst (ktakes k (crun keys cs acts))) /\
+    head_ok b (map fst (ktakes k (crun keys cs acts))) /\
+    sorted2 (map fst (ktakes k (crun keys cs acts))) /\
+    (forall t, In t (map fst (ktakes k (crun keys cs acts))) -> tmin <= t).
+Proof.
+  induction acts as [|a r IH]; intros cs tmin Hinv Hok.
+  - cbn [crun ktakes flat_map map bseq head_ok sorted2].
+    destruct Hinv as (I1 & I2 & I3 & I4).
+    destruct (mfind (cs_map cs) k) as [i|] eqn:E.
+    + exists (nth i (cs_heap cs) (fresh 0)). split; [apply I4; eapply I1; eauto|].
+      split; [intros j Hj; injection Hj as <-; reflexivity|]. repeat split; auto. intros t [].
+    + exists (fresh tmin). split; [apply wfb_fresh|]. split; [intros j Hj; discriminate|].
+      repeat split; auto. intros t [].
+  - cbn [acts_ok] in Hok. destruct Hok as [Ht Hr].
+    pose proof (cstep_inv keys cs tmin a Hinv Ht) as Hinv'.
+    cbn [crun]. cbv zeta. rewrite ktakes_app.
+    destruct (IH (fst (cstep keys cs a)) (atime a) Hinv' Hr) as (b' & Hw' & Hlink' & Hseq' & Hh' & Hs' & Hm').
+    set (tk' := ktakes k (crun keys (fst (cstep keys cs a)) r)) in *.
+    destruct Hinv as (I1 & I2 & I3 & I4).
+    destruct a as [th now|th now]; cbn [atime] in *.
+    + (* LoadOrStore: no Allow result; the key's bucket, if any, is untouched *)
+      assert (Hnil : snd (cstep keys cs (ALoad th now)) = []) by (cbn [cstep]; destruct (mfind (cs_map cs) (keys th)); reflexivity).
+      rewrite Hnil. cbn [ktakes flat_map app].
+      exists b'. split; [exact Hw'|]. split.
+      * intros i Hi. revert Hlink'. cbn [cstep].
+        destruct (mfind (cs_map cs) (keys th)) as [j|] eqn:E; cbn [fst cs_map cs_heap]; intros Hlink'.
+        -- apply Hlink'. exact Hi.
+        -- assert (Hne : keys th <> k) by (intros Hx; rewrite Hx in E; congruence).
+           rewrite (Hlink' i) by (rewrite mfind_cons_other by exact Hne; exact Hi).
+           apply app_nth1. eapply I1; eauto.
+      * split; [exact Hseq'|]. split; [exact Hh'|]. split; [exact Hs'|]. intros t Hin. specialize (Hm' t Hin). lia.
+    + destruct (hfind (cs_held cs) th) as [i|] eqn:E.
+      2:{ (* no bucket held: nothing happens *)
+          assert (Hc : cstep keys cs (ATake th now) = (cs, [])) by (cbn [cstep]; rewrite E; reflexivity).
+          rewrite Hc in *. cbn [fst snd ktakes flat_map app] in *.
+          exists b'. split; [exact Hw'|]. split; [exact Hlink'|]. split; [exact Hseq'|]. split; [exact Hh'|]. split; [exact Hs'|]. intros t Hin. specialize (Hm' t Hin). lia. }
+      pose proof (I3 _ _ E) as Hmap. pose proof (I1 _ _ Hmap) as Hi.
+      rewrite (cstep_take_eq keys cs th now i E) in *. cbn [fst snd cs_map cs_heap] in *.
+      assert (Hd : nth i (cs_heap cs) (fresh now) = nth i (cs_heap cs) (fresh 0)) by (apply nth_indep; exact Hi).
+      rewrite Hd in *.
+      set (b0 := nth i (cs_heap cs) (fresh 0)) in *.
+      rewrite ktakes_single.
+      destruct (eqb_bytes (keys th) k) eqn:Ek.
+      * apply eqb_bytes_true in Ek. cbn [app map fst snd].
+        exists b0. split; [apply I4; exact Hi|]. split.
+        -- intros j Hj. rewrite Ek in Hmap. rewrite Hmap in Hj. injection Hj as <-. reflexivity.
+        -- rewrite Ek in Hmap. specialize (Hlink' i Hmap). rewrite nth_upd_same in Hlink' by exact Hi.
+           subst b'. rewrite bseq_cons, Hseq'. split; [reflexivity|].
+           destruct (I4 i (fresh 0) Hi) as [_ Hl]. fold b0 in Hl.
+           split; [cbn [head_ok]; lia|]. split.
+           ++ cbn [sorted2]. split; [exact Hm'|exact Hs'].
+           ++ intros t [<-|Hin]; [lia|]. specialize (Hm' t Hin). lia.
+      * apply eqb_bytes_false in Ek. cbn [app].
+        exists b'. split; [exact Hw'|]. split.
+        -- intros j Hj. rewrite (Hlink' j Hj). apply nth_upd_other.
+           intros ->. apply Ek. eapply I2; eauto.
+        -- split; [exact Hseq'|]. split; [exact Hh'|]. split; [exact Hs'|]. intros t Hin. specialize (Hm' t Hin). lia.
+Qed.
+
+Lemma cgrants_wcount k a w : forall evs,
+  cgrants k a w evs = wcount a w (map fst (ktakes k evs)) (map snd (ktakes k evs)).
+Proof.
+  induction evs as [|[[k' t] g] r IH]; [reflexivity|].
+  cbn [cgrants]. change ((k', t, g) :: r) with ([(k', t, g)] ++ r).
+  rewrite ktakes_app, ktakes_single.
+  destruct (eqb_bytes k' k); cbn [app map fst snd].
+  - rewrite wcount_cons, IH. destruct g; cbn [andb]; reflexivity.
+  - rewrite IH. destruct g; cbn [andb]; reflexivity.
+Qed.
+
+Lemma cinv0 keys t : cinv keys cs0 t.
+Proof.
+  unfold cinv, cs0. cbn [cs_map cs_heap cs_held mfind hfind length].
+  repeat split; try discriminate; intros; lia.
+Qed.
+
+Lemma nondecr_acts_ok : forall acts tmin,
+  nondecr (tmin :: map atime acts) -> acts_ok tmin acts.
+Proof.
+  induction acts as [|a r IH]; intros tmin H; [exact I|].
+  cbn [map nondecr] in H. destruct H as [H1 H2]. cbn [acts_ok]. split; [exact H1|].
+  apply IH. exact H2.
+Qed.
+
+(* ALL interleavings: whatever the schedule of LoadOrStore and Allow() steps of any number
+   of goroutines (clock readings nondecreasing along the schedule), a key is granted at
+   most burst + (w-1)/interval times in a window of length w *)
+Lemma concurrent_rate keys acts k a w :
+  1 <= w -> nondecr (map atime acts) ->
+  cgrants k a w (crun keys cs0 acts) * I_NS <= BURST * I_NS + (w - 1).
+Proof.
+  intros Hw Hs.
+  assert (Hok : acts_ok (hd 0 (map atime acts)) acts).
+  { apply nondecr_acts_ok. destruct acts as [|x r]; [exact (conj I I)|].
+    cbn [map hd nondecr] in *. split; [lia|exact Hs]. }
+  destruct (cproj keys k acts cs0 _ (cinv0 keys _) Hok) as (b & Hwf & _ & Hseq & Hh & Hsrt & _).
+  rewrite cgrants_wcount, Hseq. apply wcount_bound; auto.
+Qed.
+
+Lemma concurrent_bound keys acts k a :
+  nondecr (map atime acts) -> cgrants k a I_NS (crun keys cs0 acts) <= 4.
+Proof.
+  intros Hs. pose proof (concurrent_rate keys acts k a I_NS ltac:(unfold I_NS; lia) Hs).
+  unfold BURST, I_NS in *. lia.
+Qed.
+
+(* the lookup-then-store variant: six goroutines of one fresh source all miss in Load,
+   each stores and uses its own bucket *)
+Lemma racy_witness : exists keys acts k,
+  nondecr (map (fun a => match a with RLoad _ => 0 | RStore _ t => t | RTake _ t => t end) acts) /\
+  cgrants k 0 I_NS (rrun keys cs0 acts) = 6.
+Proof.
+  exists (fun _ => [9]%N).
+  exists (map RLoad (seq 0 6) ++ map (fun th => RStore th 0) (seq 0 6) ++ map (fun th => RTake th 1) (seq 0 6)).
+  exists [9]%N. split; [vm_compute; repeat split; intro H; discriminate H|vm_compute; reflexivity].
+Qed.
